@@ -376,3 +376,35 @@ def s_activity(vc):
 from props.C09 import s_server_event as _s_server_event  # noqa: E402
 
 SCENARIOS.append(_s_server_event)
+
+
+# "A client connection with no activity for the configured timeout is closed": watch() awaits the callback (contracts above);
+# the callback is ConnectionHandler.on_timeout, and closing means cancelling the client's handler task (handle_client then
+# tears everything down, C09). The contract: whatever the client's connection state (open, half-closed in either direction,
+# closed but still registered) and transport, a registered client handler is cancelled exactly once and nothing else is.
+@scenario("on_timeout.cancels_the_client_handler", functions=["mitmproxy.proxy.server:ConnectionHandler.on_timeout"])
+def s_on_timeout(vc):
+    from mitmproxy.connection import ConnectionState as S
+    from props.C09 import _log_summaries, _stream
+    from props.prelude import mk_client, mk_server
+    CHn = "mitmproxy.proxy.server:ConnectionHandler"
+    _log_summaries(vc)
+    state = vc.case("client_state", [S.OPEN, S.CAN_READ, S.CAN_WRITE, S.CLOSED])
+    proto = vc.case("transport", ["tcp", "udp"])
+    registered = vc.case("client_registered", [True, False])
+    server_open = vc.case("server_registered", [True, False])
+    client = mk_client(vc, state=state, transport_protocol=proto)
+    server = mk_server(vc, state=S.OPEN, timestamp_start=2.0)
+    w = _stream(vc)
+    t_cli = vc.new("props.C09:TaskStub", cancel_requests=0, was_cancelled=False, exc=None)
+    t_srv = vc.new("props.C09:TaskStub", cancel_requests=0, was_cancelled=False, exc=None)
+    tr = []
+    if registered:
+        tr.append((client, vc.new("mitmproxy.proxy.server:ConnectionIO", handler=t_cli, reader=w, writer=w)))
+    if server_open:
+        tr.append((server, vc.new("mitmproxy.proxy.server:ConnectionIO", handler=t_srv, reader=w, writer=w)))
+    h = vc.new("props.C09:HandlerStub", client=client, transports=vc.dict(tr))
+    out = vc.call(CHn + ".on_timeout", h)
+    vc.ensure("no_exception", out.ok)
+    vc.ensure("client_handler_cancelled_exactly_once_iff_registered", t_cli.cancel_requests == (1 if registered else 0))
+    vc.ensure("server_handler_untouched", t_srv.cancel_requests == 0)
